@@ -54,6 +54,7 @@ struct push0_pipe {
 
 	nni_aio aio_recv;
 	nni_aio aio_send;
+	bool          closed;
 };
 
 static void
@@ -158,6 +159,7 @@ push0_pipe_close(void *arg)
 	nni_aio_close(&p->aio_send);
 
 	nni_mtx_lock(&s->m);
+	p->closed = true;
 	if (nni_list_node_active(&p->node)) {
 		nni_list_node_remove(&p->node);
 
@@ -194,6 +196,13 @@ push0_pipe_ready(push0_pipe *p)
 	bool        blocked;
 
 	nni_mtx_lock(&s->m);
+
+	if (p->closed) {
+		// A send completion that was already dispatched when the
+		// pipe closed must not put the pipe back on the ready list.
+		nni_mtx_unlock(&s->m);
+		return;
+	}
 
 	blocked = nni_lmq_full(&s->wq) && nni_list_empty(&s->pl);
 
